@@ -138,7 +138,7 @@ def shard(idx, n, seed, tier, params):
     for k in range(params.get("generated", 0) // n):
         if time.time() > t_end:
             break
-        prog = P.generate(rng, {"max_bytes": 200, "top_stmts": 8})
+        prog = P.generate(rng, {"max_bytes": 200, "top_stmts": 8, "p_test": 0.4})
         try:
             files, _ = render.render_program(prog, render.Hostile(rng))
         except render.SpellError:
